@@ -13,12 +13,12 @@ use serde_json::json;
 use std::collections::{BTreeSet, HashMap, HashSet};
 use std::sync::{Arc, Condvar, Mutex};
 
-const BODY_A: &str = "pragma solidity ^0.8.0;\ncontract A {\n  uint256 total;\n  function f(uint256 a, address t) public returns (uint256) {\n    require(a >= 1 && t != address(0), \"a revert string that is longer than thirty-two bytes\");\n    total = a * 8 + 1;\n    IERC20(t).transfer(msg.sender, a / 2 * 4);\n    return a++;\n  }\n  constructor() { total = 1; }\n}\n";
-const BODY_B: &str = "pragma solidity 0.7.6;\ncontract B {\n  using SafeMath for uint256;\n  uint128 x; uint256 y; uint128 z;\n  uint256 private hidden;\n  function g(uint256[] memory arr, bool b) external returns (uint256) {\n    for (uint256 i = 0; i < arr.length; i++) { arr[0] = arr[0] + 1; }\n    if (b == true) { selfdestruct(payable(msg.sender)); }\n    require(b, \"a revert string that is longer than thirty-two bytes\");\n    return arr[0].add(2) + address(this).balance;\n  }\n}\n";
+pub const BODY_A: &str = "pragma solidity ^0.8.0;\ncontract A {\n  uint256 total;\n  function f(uint256 a, address t) public returns (uint256) {\n    require(a >= 1 && t != address(0), \"a revert string that is longer than thirty-two bytes\");\n    total = a * 8 + 1;\n    IERC20(t).transfer(msg.sender, a / 2 * 4);\n    return a++;\n  }\n  constructor() { total = 1; }\n}\n";
+pub const BODY_B: &str = "pragma solidity 0.7.6;\ncontract B {\n  using SafeMath for uint256;\n  uint128 x; uint256 y; uint128 z;\n  uint256 private hidden;\n  function g(uint256[] memory arr, bool b) external returns (uint256) {\n    for (uint256 i = 0; i < arr.length; i++) { arr[0] = arr[0] + 1; }\n    if (b == true) { selfdestruct(payable(msg.sender)); }\n    require(b, \"a revert string that is longer than thirty-two bytes\");\n    return arr[0].add(2) + address(this).balance;\n  }\n}\n";
 const BODY_D: &str = "pragma abicoder v2;\ncontract D {\n  using SafeMath for uint256;\n  function h(\n    bytes memory first,\n    string memory second,\n    uint256[] memory third\n  ) external returns (uint256) {\n    return uint256(1).add(2).sub(1);\n  }\n}\n";
 const BODY_E0: &str = "pragma solidity 0.8.19;\ncontract Base {\n  uint256 fee;\n  address owner;\n  function setFee(uint256 f) external payable { fee = f; }\n}\n";
-const BODY_E1: &str = "pragma solidity 0.8.19;\ncontract Vault is Base {\n  uint256 shares;\n  function mint(uint256 s) external payable { shares = s; }\n}\ncontract Quoter {\n  function quote(uint256 a) external payable returns (uint256 fee) {\n    fee = a / 100;\n    address owner;\n    owner = msg.sender;\n    require(a > 0, \"part one \" \"part two\");\n  }\n}\n";
-const BODY_C: &str = "pragma solidity 0.8.3;\nstruct S { uint128 a; uint256 b; uint128 c; }\ncontract C {\n  uint256 constant K = 1;\n  uint256 never;\n  function _pub() public payable { }\n  function priv() private { bytes32 h = keccak256(abi.encode(never)); h; }\n  function w(bytes memory data) external payable { require(data.length > 0, \"short\"); }\n}\n";
+pub const BODY_E1: &str = "pragma solidity 0.8.19;\ncontract Vault is Base {\n  uint256 shares;\n  function mint(uint256 s) external payable { shares = s; }\n}\ncontract Quoter {\n  function quote(uint256 a) external payable returns (uint256 fee) {\n    fee = a / 100;\n    address owner;\n    owner = msg.sender;\n    require(a > 0, \"part one \" \"part two\");\n  }\n}\n";
+pub const BODY_C: &str = "pragma solidity 0.8.3;\nstruct S { uint128 a; uint256 b; uint128 c; }\ncontract C {\n  uint256 constant K = 1;\n  uint256 never;\n  function _pub() public payable { }\n  function priv() private { bytes32 h = keccak256(abi.encode(never)); h; }\n  function w(bytes memory data) external payable { require(data.length > 0, \"short\"); }\n}\n";
 
 pub fn files(tier: Tier) -> Vec<(String, String)> {
     // pairs of files with the same byte length but different line layouts are part of the alphabet
